@@ -21,7 +21,7 @@ RULE = ('source port trees to depth 3 over names {a, ab, abc, b, x} (so names ar
         'selects a strict subset')
 RULE += ('; also: empty namespaces, a reused options dictionary, targets below existing namespaces, a second narrower exposure of the same class, a destination port under the name of an excluded source port')
 ASSUMPTIONS = ['an empty include list is treated by the code as "no filter" and is outside the quantifier', 'reference model written from the property statement']
-REQUIRED = ['exposes', 'include_cases', 'exclude_cases', 'prefix_sibling_cases', 'nested_rule_cases', 'attr_checks', 'mutation_probes', 'both_rejected',
+REQUIRED = ['path_lookups', 'deep_path_lookups', 'exposes', 'include_cases', 'exclude_cases', 'prefix_sibling_cases', 'nested_rule_cases', 'attr_checks', 'mutation_probes', 'both_rejected',
             'namespace_option_cases', 'preexisting_kept', 'options_reused', 're_exposures', 'own_port_under_excluded_name', 'renamed_source_ports']
 BOUNDS = {'quick': '40 trees x all single rules and pairs', 'thorough': '600 trees, rule sets up to 3'}
 NAMES = ['a', 'ab', 'abc', 'b', 'x']
@@ -64,6 +64,8 @@ def _rand_ns_attrs(rng):
         attrs['populate_defaults'] = False
     if rng.random() < 0.2:
         attrs['validator'] = 'v_ns'
+    if rng.random() < 0.3:
+        attrs['default'] = {'dflt': rng.randint(0, 9)}  # (a namespace may carry a default of its own)
     return attrs
 
 
@@ -103,6 +105,8 @@ def _kw(attrs):
         kw['valid_type'] = TYPES[kw['valid_type']]
     if 'validator' in kw:
         kw['validator'] = VALIDATORS[kw['validator']]
+    if kw.get('default') == '@UNSPEC':
+        kw['default'] = UNSPECIFIED  # (the public "no default" marker is an option value like any other)
     return kw
 
 
@@ -148,7 +152,7 @@ def gen_cases(tier, seed):
                 opts = {}
                 if rng.random() < 0.4:
                     opts = rng.choice([{'help': 'override'}, {'required': False}, {'dynamic': True}, {'populate_defaults': False},
-                                       {'required': False, 'help': 'o2', 'valid_type': 'str'}])
+                                       {'required': False, 'help': 'o2', 'valid_type': 'str'}, {'default': '@UNSPEC'}, {'default': {'other': 2}, 'help': 'o3'}])
                 pre = rng.random() < 0.6
                 yield {'kind': kind, 'tree': tree, 'top': top_attrs, 'mode': mode, 'rules': rs, 'target': target, 'options': opts, 'pre': pre,
                        'renamed': t % 3 == 1}
@@ -406,6 +410,25 @@ def run_case(case):
                 viol.append(V('preexisting-changed', 'preexisting-changed:excluded-name', 'the destination\'s own port %s, named like an excluded source port, was %s by the exposure' % (
                     name, 'removed' if name not in now else 'changed')))
         obs['preexisting_kept'] = 1
+    # a port looked up by its path in the destination is the destination's copy (the object stored there), not the source's port --
+    # whichever of the two specs was asked first
+    for n, path in enumerate(sorted(p for p in (exp_names & real_names) if '.' in p)):
+        order = (src_root, target_ns) if n % 2 == 0 else (target_ns, src_root)
+        try:
+            found = {id(root): root.get_port(path, create_dynamically=False) for root in order}
+        except ValueError:
+            continue
+        stored = target_ns
+        for part in path.split('.'):
+            stored = stored[part]
+        obs['path_lookups'] = obs.get('path_lookups', 0) + 1
+        if '.' in path.split('.', 1)[1]:
+            obs['deep_path_lookups'] = obs.get('deep_path_lookups', 0) + 1
+        if found[id(target_ns)] is not stored or found[id(target_ns)] is found[id(src_root)]:
+            viol.append(V('lookup-gives-source-port', 'lookup-gives-source-port:' + kind, 'get_port(%r) on the destination returned %s, not the copy stored under that path '
+                          '(asked the %s first)' % (path, 'the port of the source spec' if found[id(target_ns)] is found[id(src_root)] else 'another object',
+                                                    'source' if n % 2 == 0 else 'destination')))
+            break
     # independence: mutate the source, the destination must not change; then the other way round
     before = describe(target_ns)
     _mutate(src_root)
